@@ -601,6 +601,14 @@ impl endpoint::Session for Session {
         let _ = self.session_stop_reason.set(reason);
     }
 
+    fn abandon_outcome_waiters(&mut self) {
+        self.link_by_name
+            .values()
+            .flatten()
+            .chain(self.link_by_input_handle.values())
+            .for_each(|link| link.abandon_outcome_waiters());
+    }
+
     fn session_stop_reason(&self) -> &Arc<OnceLock<SessionStopReason>> {
         &self.session_stop_reason
     }
